@@ -697,4 +697,145 @@ theorem optSpec_scale (op : OptPts) (t t' : List Pt) (c : Rat) (hc : 0 < c) (hl 
         · simp only [hm', if_false]
           exact optSpec_scale op t t' c hc hl hm fuel _ _
 
+/-! ### GLS update step -/
+theorem sum_map_lin3 {α} (k1 k2 : Rat) (f g h : α → Rat) (l : List α) :
+    (l.map fun x => f x - k1 * g x - k2 * h x).sum = (l.map f).sum - k1 * (l.map g).sum - k2 * (l.map h).sum := by
+  induction l with
+  | nil => simp
+  | cons x t ih => simp only [List.map_cons, List.sum_cons, ih]; ring
+
+theorem sum2_lin3 (W : List (List Rat)) (k1 k2 : Rat) (f g h : Nat → Nat → Rat → Rat) :
+    sum2 W (fun r c w => f r c w - k1 * g r c w - k2 * h r c w) = sum2 W f - k1 * sum2 W g - k2 * sum2 W h := by
+  unfold sum2
+  simp only [sum_map_lin3]
+
+theorem sum2_congr (W : List (List Rat)) (f g : Nat → Nat → Rat → Rat) (h : ∀ r c w, f r c w = g r c w) :
+    sum2 W f = sum2 W g := by
+  have : f = g := by funext r c w; exact h r c w
+  rw [this]
+
+/-- the weighted residual sums of a line `a + b·(c+1)` through the points `(c + 1, msd[c])` under the weight matrix `W` -/
+def glsRes (W : List (List Rat)) (msd : List Rat) (a b : Rat) : Rat :=
+  sum2 W fun _ c w => w * (msd.getD c 0 - a - b * ((c : Rat) + 1))
+def glsResLag (W : List (List Rat)) (msd : List Rat) (a b : Rat) : Rat :=
+  sum2 W fun r c w => ((r : Rat) + 1) * w * (msd.getD c 0 - a - b * ((c : Rat) + 1))
+
+/-- `Σ (c+1) W[r,c]` — equals `lam` when `W` is symmetric -/
+def glsLamT (W : List (List Rat)) : Rat := sum2 W fun _ c w => ((c : Rat) + 1) * w
+
+theorem glsRes_eq (W : List (List Rat)) (msd : List Rat) (a b : Rat) :
+    glsRes W msd a b = glsNu W msd - a * glsKappa W - b * glsLamT W := by
+  unfold glsRes glsNu glsKappa glsLamT
+  rw [← sum2_lin3]
+  apply sum2_congr; intro r c w; ring
+
+theorem glsResLag_eq (W : List (List Rat)) (msd : List Rat) (a b : Rat) :
+    glsResLag W msd a b = glsXi W msd - a * glsLam W - b * glsMu W := by
+  unfold glsResLag glsXi glsLam glsMu
+  rw [← sum2_lin3]
+  apply sum2_congr; intro r c w; ring
+
+
+/-! ### ensemble of identical tracks, automatic number of lags -/
+
+theorem ptsOf_take (rows : List MsdRow) (k : Nat) : (ptsOf rows).take k = ptsOf (rows.take k) := by
+  unfold ptsOf; rw [List.map_take]
+
+theorem optLoopEns_eq_spec (op : OptPts) (t : List Pt) (h5 : ¬ t.length ≤ 4) :
+    ∀ (fuel : Nat) (cur : Nat × Nat) (seen : List Nat),
+    optLoopEns op (ptsOf (msdCounts t none)) t.length fuel cur.1 seen = (optSpec op t fuel cur seen).map (·.1)
+  | 0, _, _ => rfl
+  | fuel + 1, cur, seen => by
+    simp only [optLoopEns, optSpec, h5, if_false, ptsOf_take, ← msdCounts_some_eq_take]
+    generalize op (locErr (ptsOf (msdCounts t (some (cur.1 : Int))))) t.length = r
+    cases r with
+    | error e => rfl
+    | ok nxt =>
+      simp only
+      by_cases hm : nxt.1 ∈ cur.1 :: seen
+      · simp only [hm, if_true]; rfl
+      · simp only [hm, if_false]
+        exact optLoopEns_eq_spec op t h5 fuel nxt _
+
+/-- value and localisation variance of an OLS estimate depend on the fitted points only -/
+theorem olsFromRows_value (rows rows' : List MsdRow) (n n' : Nat) (dt em em' : Rat) (av av' : Bool)
+    (h : ptsOf rows' = ptsOf rows) :
+    (olsFromRows rows' n' dt av' em').map (fun e => (e.value, e.lv)) =
+      (olsFromRows rows n dt av em).map (fun e => (e.value, e.lv)) := by
+  unfold olsFromRows
+  simp only [h]
+  split <;> rfl
+
+/-- an `optimal_points` function that never answers fewer than two lags for the slope (as the code's: `max(2, …)`) -/
+def AtLeastTwo (op : OptPts) : Prop := ∀ le n r, op le n = .ok r → 2 ≤ r.1
+
+theorem optSpec_ge_two (op : OptPts) (hop : AtLeastTwo op) (t : List Pt) :
+    ∀ (fuel : Nat) (cur : Nat × Nat) (seen : List Nat) (r : Nat × Nat), 2 ≤ cur.1 →
+    optSpec op t fuel cur seen = .ok r → 2 ≤ r.1
+  | 0, cur, _, r, hc, h => by
+    simp only [optSpec, Except.ok.injEq] at h; subst h; exact hc
+  | fuel + 1, cur, seen, r, hc, h => by
+    simp only [optSpec] at h
+    split at h
+    · cases h
+    · split at h
+      · cases h
+      · rename_i nxt hn
+        have h2 := hop _ _ _ hn
+        split at h
+        · simp only [Except.ok.injEq] at h; subst h; exact h2
+        · exact optSpec_ge_two op hop t fuel nxt _ r h2 h
+
+theorem optimalPointsF_atLeastTwo : AtLeastTwo optimalPointsF := by
+  intro le n r h
+  unfold optimalPointsF at h
+  split at h
+  · cases h
+  · split at h
+    · cases h
+    · simp only [Except.ok.injEq] at h; subst h; exact Nat.le_max_left _ _
+    · simp only [Except.ok.injEq] at h; subst h; exact Nat.le_max_left _ _
+
+
+
+/-! ### tracks without missing frames -/
+
+/-- no missing frames: the frame indices are `f0, f0 + 1, …` -/
+def Contiguous (t : List Pt) : Prop :=
+  ∃ f0 : Int, t.map (·.1) = (List.range t.length).map fun (i : Nat) => f0 + (i : Int)
+
+
+theorem mem_frames_contiguous (t : List Pt) (f0 : Int)
+    (h : t.map (·.1) = (List.range t.length).map fun (i : Nat) => f0 + (i : Int)) (x : Int) :
+    (∃ a ∈ t, a.1 = x) ↔ ∃ i : Nat, i < t.length ∧ x = f0 + i := by
+  have : x ∈ t.map (·.1) ↔ x ∈ (List.range t.length).map fun (i : Nat) => f0 + (i : Int) := by rw [h]
+  simp only [List.mem_map, List.mem_range] at this
+  constructor
+  · rintro ⟨a, ha, rfl⟩
+    obtain ⟨i, hi, he⟩ := this.mp ⟨a, ha, rfl⟩
+    exact ⟨i, hi, he.symm⟩
+  · rintro ⟨i, hi, rfl⟩
+    obtain ⟨a, ha, he⟩ := this.mpr ⟨i, hi, rfl⟩
+    exact ⟨a, ha, he⟩
+
+theorem lagsAll_contiguous (t : List Pt) (h : Contiguous t) :
+    lagsAll t = (List.range (t.length - 1)).map fun (i : Nat) => ((i : Int) + 1) := by
+  obtain ⟨f0, hf⟩ := h
+  apply sorted_ext _ _ (lagsAll_sorted t)
+  · rw [List.pairwise_map]
+    exact (List.pairwise_lt_range).imp (by intro a b hab; omega)
+  · intro δ
+    rw [mem_lagsAll]
+    simp only [List.mem_map, List.mem_range]
+    constructor
+    · rintro ⟨hpos, a, ha, b, hb, hd⟩
+      obtain ⟨i, hi, hai⟩ := (mem_frames_contiguous t f0 hf a.1).mp ⟨a, ha, rfl⟩
+      obtain ⟨j, hj, hbj⟩ := (mem_frames_contiguous t f0 hf b.1).mp ⟨b, hb, rfl⟩
+      refine ⟨j - i - 1, by omega, by omega⟩
+    · rintro ⟨i, hi, rfl⟩
+      obtain ⟨a, ha, hae⟩ := (mem_frames_contiguous t f0 hf (f0 + (0 : Nat))).mpr ⟨0, by omega, rfl⟩
+      obtain ⟨b, hb, hbe⟩ := (mem_frames_contiguous t f0 hf (f0 + ((i + 1 : Nat) : Int))).mpr ⟨i + 1, by omega, rfl⟩
+      exact ⟨by omega, a, ha, b, hb, by rw [hae, hbe]; push_cast; omega⟩
+
+
 end Verif.C09
